@@ -194,7 +194,7 @@ func allProps() []Prop {
 		{ID: "C12", Jobs: icptJobs, Panics: true, Progress: true, Lockset: true, Assume: commonAssume, Bounds: icptBounds},
 		{ID: "C15", Jobs: gmeJobs, Panics: true, Assume: gmeAssume, Bounds: gmeBounds},
 		{ID: "C16", Jobs: gmeJobs, Panics: true, Assume: gmeAssume, Bounds: gmeBounds},
-		{ID: "C17", Jobs: cat(initJ, uccs, gmeQuick[6:7]), Assume: append(append([]string{}, commonAssume...), "proto.Clone is modelled as a structural deep copy of the exported fields of the message object graph", "NOT covered: the JSON parser (protojson.Unmarshal behind ParseConfig) - reflection-driven library code outside the executor; 'accepts exactly the well-formed JSON renderings and round-trips them' is not claimed"), Bounds: map[string]string{"config": "ApiConfig present or nil, ChannelPool present or nil, all scalars full-width symbolic, 0..2 method entries x 0..2 names (symbolic strings, possibly equal), affinity section present or nil per entry; a second resolver update with another symbolic configuration", "minSize": "<= 3 (at most 4 connections at start)", "loop unroll": "6"}},
+		{ID: "C17", Jobs: cat(initJ, uccs, gmeQuick[6:7], caseJobs("VerifH_parse", map[string][]int{"doc": {0, 1, 2, 3, 4, 5, 6, 7, 8, 9, 10, 11, 12, 13}}, []string{"doc"})), Assume: append(append([]string{}, commonAssume...), "proto.Clone is modelled as a structural deep copy of the exported fields of the message object graph", "the JSON parser itself (protojson.Unmarshal behind ParseConfig) is reflection-driven library code outside the executor: the symbolic run replaces it by a summary over a table of 14 concrete documents (well-formed, malformed, unknown field, wrong type, original proto field names, enum names, trailing garbage); the witness replay runs the REAL parser on the same document and compares every observed value, so the table is validated against the real parser on every check. Claimed for ParseConfig: it accepts exactly what the parser accepts, hands it the caller's bytes once and unchanged without DiscardUnknown/AllowPartial, and returns a GCPBalancerConfig holding exactly the document's content. NOT claimed: the parser's behaviour on documents outside the table"), Bounds: map[string]string{"config": "ApiConfig present or nil, ChannelPool present or nil, all scalars full-width symbolic, 0..2 method entries x 0..2 names (symbolic strings, possibly equal), affinity section present or nil per entry; a second resolver update with another symbolic configuration", "minSize": "<= 3 (at most 4 connections at start)", "loop unroll": "6"}},
 		{ID: "C11", Jobs: keysJobs, Panics: true, Assume: append(append([]string{}, commonAssume...), "package reflect is modelled by intrinsics (ValueOf, Kind, Elem, FieldByName, Len, Index, String) over the symbolic heap following its documented semantics; strings.Split/Title are applied to constants", "types outside the bounded family (embedded pointer-to-struct fields, arrays, pointer-to-pointer) and locators needing Unicode title-casing are not covered"), Bounds: keysBounds},
 		{ID: "C19", Jobs: ckJobs, Panics: true, Assume: append(append([]string{}, commonAssume...), "crc32.MakeTable/Checksum are an uninterpreted function of (polynomial, exact byte slice): the arithmetic of CRC32C (stdlib, partly assembly) is not encoded", "the inner codec is a harness fake returning arbitrary bytes: 'decodes to an equal message' inside the protobuf runtime is reduced to 'a conforming parser (real protowire.ConsumeField) skips exactly the 6-byte prefix'"), Bounds: ckBounds},
 		{ID: "C13", Jobs: meJobs, Panics: true, Assume: commonAssume, Bounds: meBounds},
